@@ -939,7 +939,11 @@ class TupleOf(DataType):
     def validate(self, value, previous=None):
         self.check_type(value)
         try:
-            if previous is None:
+            try:
+                use_previous = len(previous) == len(self.members)
+            except TypeError:
+                use_previous = False
+            if not use_previous:  # no previous value, or not one of this datatype
                 return tuple(sub.validate(elem) for sub, elem in zip(self.members, value))
             return tuple(sub.validate(v, p) for sub, v, p in zip(self.members, value, previous))
         except Exception as e:
